@@ -80,6 +80,51 @@ def _mask_use(expr: ast.AST):
     return ("other:" + norm(expr)[:60], norm(expr)[:60], None)
 
 
+def _reads_series_at_index(fn: ast.FunctionDef) -> bool:
+    """On every path of fn(x, index) on which x is a BlockSeries, the value that leaves (other than the `zero` sentinel)
+    is built from x[index] only: no use of the series itself, no other index."""
+    from .sem import outcomes
+    params = [a.arg for a in fn.args.args]
+    if len(params) != 2:
+        raise AnalysisError(RULE, f"{fn.name}: signature is not (x, index)")
+    X, I = params
+
+    def atom(n):
+        t = norm(n)
+        if t == f"isinstance({X}, BlockSeries)":
+            return True
+        return None
+
+    class _Fold(ast.NodeTransformer):
+        def visit_IfExp(self, n):
+            self.generic_visit(n)
+            v = atom(n.test)
+            return n if v is None else (n.body if v else n.orelse)
+
+    seen = 0
+    for oc in outcomes(fn.body, None, env={}, atom=atom):
+        if oc.kind != "return" or oc.value is None:
+            if oc.kind == "raise":
+                continue
+            raise AnalysisError(RULE, f"{fn.name}: path without a returned value")
+        if norm(oc.value) == "zero":
+            continue
+        seen += 1
+        oc.value = _Fold().visit(oc.value)
+        oc.conds = [(_Fold().visit(c), p_) for c, p_ in oc.conds]
+        t = ast.parse(norm(oc.value).replace(f"{X}[{I}]", "_ELEMENT_"), mode="eval")
+        if any(isinstance(n, ast.Name) and n.id == X for n in ast.walk(t)):
+            return False
+        if not any(isinstance(n, ast.Name) and n.id == "_ELEMENT_" for n in ast.walk(t)):
+            return False
+        # the tests that decided this path read the element too (`x is zero` is about x[index])
+        for c, _pol in oc.conds:
+            tc = ast.parse(norm(c).replace(f"{X}[{I}]", "_ELEMENT_").replace(f"isinstance({X}, BlockSeries)", "True"), mode="eval")
+            if any(isinstance(n, ast.Name) and n.id == X for n in ast.walk(tc)):
+                return False
+    return seen > 0
+
+
 def rule_projection_pairs(rep: Report, repo: Repo):
     f = repo.find(f"{MOD}::block_diagonalize", RULE)
     loc = lambda n: repo.loc(MOD, n)
@@ -186,9 +231,7 @@ def rule_projection_pairs(rep: Report, repo: Repo):
                           "", loc(d))
         # BlockSeries argument is indexed at the requested index
         for fn in (d, o):
-            idx = [n for n in own_nodes(fn) if isinstance(n, ast.Assign) and norm(n.targets[0]) == "x"]
-            ok = len(idx) == 1 and norm(idx[0].value) == "x[index] if isinstance(x, BlockSeries) else x"
-            rep.check(ok, RULE, f"{pair}: {fn.name} reads a series argument at the requested index", "", loc(fn))
+            rep.check(_reads_series_at_index(fn), RULE, f"{pair}: {fn.name} reads a series argument at the requested index", "", loc(fn))
 
 
 def _flag_branches(owner, flag: str, mask: str):
